@@ -29,6 +29,7 @@ func checkC09(c *Ctx) {
 	c.NotDec = "arrival-order independence as such (follows from the set-like structure of the vote table, not separately proved); goroutine interleavings beyond lock discipline; Kauri tree timing."
 	c.Expect("C09.1", 3)
 	c.Expect("C09.7", 3)
+	c.Expect("C09.10", 2)
 
 	vc := p.Method("protocol/votingmachine", "VotingMachine", "verifyCert")
 	cv := p.Method("protocol/votingmachine", "VotingMachine", "CollectVote")
@@ -54,7 +55,37 @@ func checkC09(c *Ctx) {
 		})
 	}
 	ws := c.whoMayWrite("C09.9", p.Field("protocol/votingmachine", "VotingMachine", "verifiedVotes"), "VotingMachine.verifiedVotes", "(*hs/protocol/votingmachine.VotingMachine).verifyCert")
-	_ = ws
+	// C09.10 collected votes are discarded only when they cannot form a certificate any more: the block is
+	// unknown locally, or not newer than the high QC, or its certificate was just created from them
+	for _, w := range ws {
+		if w.Kind != "delete" || w.Fresh {
+			continue
+		}
+		del := w.Instr.(*ssa.Call)
+		dfl := NewFlow(p, w.Fn)
+		kd := dfl.K.Key(del.Call.Args[1])
+		getOf := func(k, suffix string) bool {
+			return strings.HasPrefix(k, "(*hs/security/blockchain.Blockchain).LocalGet(") && strings.Contains(k, ", "+kd+")") && strings.HasSuffix(k, suffix)
+		}
+		closes := func(fs []Fact) bool {
+			for _, f := range fs {
+				switch {
+				case f.Op == "false" && getOf(f.L, "#1"):
+					return true
+				case f.Op == "<=" && strings.HasPrefix(f.L, kBlockView) && getOf(strings.TrimSuffix(strings.TrimPrefix(f.L, kBlockView), ")"), "#0") &&
+					strings.HasPrefix(f.R, kQCView+"(*hs/protocol.ViewStates).HighQC("):
+					return true
+				case f.Op == "<=" && strings.HasPrefix(f.L, kQuorumSize) && strings.HasPrefix(f.R, "builtin len(") && kd == kPCHash+"p1)":
+					return true
+				}
+			}
+			return false
+		}
+		open := openPathTo(dfl, del, closes)
+		c.Check(open == "", "C09.10", "verifiedVotes: votes are discarded only when obsolete", p.InstrPos(del),
+			"delete(verifiedVotes, "+shortVal(kd)+") is reached only when the block is unknown, not newer than the high QC, or its quorum was just reached",
+			"collected votes for "+shortVal(kd)+" can be discarded while a certificate can still form ("+open+" without passing an obsolescence test): a quorum votes for the block and no QC is created")
+	}
 	if upd == nil {
 		c.Unresolved("C09.1", "verifyCert", "no update of verifiedVotes found")
 	} else {
@@ -188,7 +219,7 @@ func checkC09(c *Ctx) {
 	c09Kauri(c)
 
 	// C09.8b a vote from a replica whose BLS proof of possession does not verify never counts (shared with C02.5/pop)
-	c.importFrom(checkC02, "C09.8", "C02.5/pop")
+	c.importFrom(checkC02, "C09.8", "C02.5/pop", "C02.6")
 
 	// C09.8 duplicate signers inside one signature (shared with C02.4)
 	for _, scheme := range []string{"ECDSA", "EDDSA"} {
